@@ -36,6 +36,8 @@ pub struct E1Opts<'a> {
     pub deadline: Option<Instant>,
     /// explore only roots idx with idx % stride == offset (used by the determinism re-run; 1/0 = all)
     pub chunk: usize,
+    /// only evaluate the turn-start oracles on each root, do not expand
+    pub roots_only: bool,
 }
 
 pub fn run_family(fam: &Family, o: &E1Opts) -> FamilyResult {
@@ -63,8 +65,12 @@ pub fn run_family(fam: &Family, o: &E1Opts) -> FamilyResult {
             let r = catch_unwind(AssertUnwindSafe(|| {
                 let n = root_node(&root);
                 turn_start_oracles(&mut ctx, &n, None);
-                let mut seen: FxSet<TurnKey> = FxSet::default();
-                dfs(&mut ctx, &n, &mut seen);
+                if o.roots_only {
+                    ctx.stats.states += 1;
+                } else {
+                    let mut seen: FxSet<TurnKey> = FxSet::default();
+                    dfs(&mut ctx, &n, &mut seen);
+                }
             }));
             if r.is_err() {
                 let q = ctx.query;
